@@ -212,6 +212,9 @@ fn report(run: &Run, i: u64, n_gates: usize, r: Result<CaseOut, vcommon::pool::P
         Ok(o) => {
             if o.status != "ok" {
                 run.count(&format!("not_simulated_{}", o.status.split(':').next().unwrap_or("")), 1);
+                if o.status.starts_with("parse_error") {
+                    run.note(format!("case {i}: {}", o.status.chars().take(400).collect::<String>()));
+                }
                 return;
             }
             let d = o.design.as_ref().unwrap();
